@@ -507,6 +507,12 @@ fn merge_dynamic_symbol_definitions<'data, P: Platform>(
         dynamic_symbol_definitions.extend(group.common.dynamic_symbol_definitions.iter().copied());
     }
 
+    // Within a group, definitions were recorded in the order in which requests to export them
+    // arrived from other groups, which depends on thread scheduling. If we end up emitting a GNU
+    // hash table, we'll re-sort by hash bucket later, but otherwise this is the order in which
+    // we'll write .dynsym, so make it deterministic.
+    dynamic_symbol_definitions.sort_by_key(|d| d.symbol_id);
+
     append_prelude_defsym_dynamic_symbols(
         group_states,
         symbol_db,
